@@ -1,12 +1,15 @@
 #!/bin/bash
-# usage: run_harmless.sh <patch> ; prints per-property exit codes (1 = false alarm)
-P=$1; name=$(basename $(dirname $(dirname $P)))_$(basename $P .diff)
-R=/var/tmp/harmless/$name; rm -rf $R; mkdir -p $R; rsync -a --exclude target --exclude .git /repo/ $R/
-( cd $R && patch -p1 -s < $P ) || { echo "$name PATCH-FAILED"; exit 0; }
+# usage: run_harmless.sh <patch> ; prints per-property exit codes (1 = false alarm, 2 = undecided)
+# VERIF_ROOT (default: the directory above this script) and REPO_SRC (default /repo) let a snapshot run use its own copies.
+HERE=$(cd "$(dirname "$0")/.." && pwd)
+VR=${VERIF_ROOT:-$HERE}; SRC=${REPO_SRC:-/repo}
+P=$1; name=$(basename $(dirname $P))_$(basename $P .diff)
+R=/var/tmp/harmless/$name; rm -rf $R; mkdir -p $R; rsync -a --exclude target --exclude .git $SRC/ $R/
+( cd $R && patch -p1 -s < $P ) || { echo "$name PATCH-FAILED"; rm -rf $R; exit 0; }
 out=""
 for p in C01 C02 C03 C04 C05 C06 C07 C08 C09 C10 C11 C12 C13 C14 C15 C16 C17 C18 C19; do
-  VERIF_REPO=$R python3 /verif/bin/check $p --no-kani --no-evidence > $R.$p.log 2>&1; rc=$?
+  VERIF_REPO=$R python3 $VR/bin/check $p --no-kani --no-evidence > $R.$p.log 2>&1; rc=$?
   [ $rc -ne 0 ] && out="$out $p=$rc"
 done
 echo "$name:${out:- all-0}"
-rm -rf $R; rm -rf /verif/work/*-$(python3 -c "import hashlib,sys;print(hashlib.sha1(sys.argv[1].encode()).hexdigest()[:8])" $R)
+rm -rf $R; rm -rf $VR/work/*-$(python3 -c "import hashlib,sys;print(hashlib.sha1(sys.argv[1].encode()).hexdigest()[:8])" $R)
